@@ -1,5 +1,26 @@
 //@unit props=C06,C13 tier=quick rlimit=30
 //@file src/algo/dfs.rs
+// C06 for Dfs / DfsDist / DfsPred (stack-based depth-first search), verified against the opaque digraph `Dg` (prelude/dg.rs).
+//
+// How the property is stated (modularly, per call of `next`; `s` = source set, not stored in the structs, hence universally
+// quantified: `forall|s| old.inv(s) ==> ...`; `new` establishes inv for s = set of the given sources):
+//   * at most once / no other vertex: Some(v) ==> v was unvisited and is the only vertex newly marked visited; v is reachable;
+//   * stack discipline: Some(v) ==> v was the topmost unvisited entry, replaced by exactly its unvisited out-neighbours (X_yield_at);
+//   * preorder: Some(v) ==> v is a new root (source, no visited vertex has an unvisited out-neighbour) or an out-neighbour of the
+//     deepest vertex on the current search path that still has an unvisited out-neighbour (search_step / deepest_step, with the
+//     search path `path` threaded as ghost parameter of inv_p); DfsPred reports that vertex (pred_step, deepest_step), DfsDist
+//     reports the depth = |search path| - 1 (and dist_step w.r.t. the depths `dep` reported so far);
+//   * every reachable vertex: KNOWN DEFECT F2 - `next` returns None when it pops an already visited vertex although unvisited
+//     vertices may remain on the stack (arcs 0->1, 0->2, 0->3, 3->2, source 0: yields 0, 3, 2, never 1). The clause
+//     `r is None ==> no unvisited vertex remains on the stack` is the only clause expected to FAIL (once per struct);
+//     lemma_exhausted (per struct) turns its conclusion into visited == reachable, and DfsPred::predecessors - verified
+//     against the contract of `next` - concludes visited == reachable and that its result is the search forest (pred_forest).
+// After the repair of F2 (`loop { ..; continue; ..; return Some(x); }`) the function contracts stay as they are; only the
+// annotations move: add `@loop 1` (outer loop) with invariant { self.wf(), digraph/visited unchanged, self.stack@ is a prefix of
+// old(self).stack@ whose dropped entries are visited, forall|s| old.inv(s) ==> self.inv(s), same for inv_p } decreases
+// self.stack@.len(), `@loop_start 1: let ghost pre = *self;`, renumber the for loop to 2 and state its invariants and the hints
+// w.r.t. `pre` instead of old(self) (plus pre-vs-old facts), `@before return None` -> `@before continue`, `@fn_end` ->
+// `@before return Some(`. (Checked on a scratch copy: all obligations pass, the three failures disappear.)
 use vstd::prelude::*;
 use vstd::std_specs::iter::IteratorSpec;
 use vstd::slice::SliceIndexSpec;
@@ -253,7 +274,7 @@ impl<'a> Dfs<'a> {
         final(self).wf(),
         final(self).digraph == old(self).digraph,
         // (known defect F2) the iteration may only end when no unvisited vertex is left on the stack
-        r is None ==> forall|i: int| 0 <= i < final(self).stack@.len() ==> final(self).visited@[#[trigger] final(self).stack@[i] as int],
+        /*props=C06*/ r is None ==> forall|i: int| 0 <= i < final(self).stack@.len() ==> final(self).visited@[#[trigger] final(self).stack@[i] as int],
         // None: nothing is yielded, nothing is marked; only visited entries are discarded from the top of the stack
         r is None ==> final(self).visited@ == old(self).visited@,
         r is None ==> final(self).stack@.len() <= old(self).stack@.len() && forall|i: int| 0 <= i < final(self).stack@.len() ==> #[trigger] final(self).stack@[i] == old(self).stack@[i],
@@ -596,7 +617,7 @@ impl<'a> DfsDist<'a> {
         final(self).wf(),
         final(self).digraph == old(self).digraph,
         // (known defect F2) the iteration may only end when no unvisited vertex is left on the stack
-        r is None ==> forall|i: int| 0 <= i < final(self).stack@.len() ==> final(self).visited@[(#[trigger] final(self).stack@[i]).0 as int],
+        /*props=C06*/ r is None ==> forall|i: int| 0 <= i < final(self).stack@.len() ==> final(self).visited@[(#[trigger] final(self).stack@[i]).0 as int],
         // None: nothing is yielded, nothing is marked; only visited entries are discarded from the top of the stack
         r is None ==> final(self).visited@ == old(self).visited@,
         r is None ==> final(self).stack@.len() <= old(self).stack@.len() && forall|i: int| 0 <= i < final(self).stack@.len() ==> #[trigger] final(self).stack@[i] == old(self).stack@[i],
@@ -958,7 +979,7 @@ impl<'a> DfsPred<'a> {
         final(self).wf(),
         final(self).digraph == old(self).digraph,
         // (known defect F2) the iteration may only end when no unvisited vertex is left on the stack
-        r is None ==> forall|i: int| 0 <= i < final(self).stack@.len() ==> final(self).visited@[(#[trigger] final(self).stack@[i]).1 as int],
+        /*props=C06*/ r is None ==> forall|i: int| 0 <= i < final(self).stack@.len() ==> final(self).visited@[(#[trigger] final(self).stack@[i]).1 as int],
         // None: nothing is yielded, nothing is marked; only visited entries are discarded from the top of the stack
         r is None ==> final(self).visited@ == old(self).visited@,
         r is None ==> final(self).stack@.len() <= old(self).stack@.len() && forall|i: int| 0 <= i < final(self).stack@.len() ==> #[trigger] final(self).stack@[i] == old(self).stack@[i],
